@@ -114,6 +114,31 @@ func (b *BlockNet) Drop(c cid.Cid) {
 }
 
 // Has reports whether peer p holds the block locally.
+// Take removes a block from every peer and returns it with the peers that held it (to put it back)
+func (b *BlockNet) Take(c cid.Cid) (ipld.Node, []int) {
+	b.mu.Lock()
+	defer b.mu.Unlock()
+	var n ipld.Node
+	var holders []int
+	for i := range b.blocks {
+		if x, ok := b.blocks[i][c]; ok {
+			n = x
+			holders = append(holders, i)
+			delete(b.blocks[i], c)
+		}
+	}
+	return n, holders
+}
+
+func (b *BlockNet) Restore(n ipld.Node, holders []int) {
+	b.mu.Lock()
+	for _, i := range holders {
+		b.blocks[i][n.Cid()] = n
+	}
+	b.bump()
+	b.mu.Unlock()
+}
+
 func (b *BlockNet) Has(p int, c cid.Cid) bool {
 	b.mu.Lock()
 	defer b.mu.Unlock()
